@@ -211,6 +211,7 @@ def run_symbolic(fn_label, body, cfg_label='', loop_mode=None, setup_ctx=None,
       if r.status == 'sat':
         stats['covers'] += 1
     goals = []
+    have = []
     for ob in c.obligations:
       goals.append((ob.name, ob.kind, ob.goal, hyps[:ob.hyp_count]))
     for name, b in clauses:
@@ -226,9 +227,12 @@ def run_symbolic(fn_label, body, cfg_label='', loop_mode=None, setup_ctx=None,
         g.status, g.time, g.backend, g.model, g.detail = 'skipped', 0.0, '', None, 'family already refuted'
         results.append(g)
         continue
-      r = solve.prove(hy, goal, tr, timeout_ms)
+      r = solve.prove(list(hy) + have, goal, tr, timeout_ms)
       if r.status == 'refuted':
         fam_refuted[fam] = fam_refuted.get(fam, 0) + 1
+      if name.startswith('have:') and r.status == 'proved':
+        # a proved intermediate step may be used by the clauses that follow it
+        have.append(goal)
       g.status, g.time, g.backend, g.model, g.detail = r.status, r.time, r.backend, r.model, r.detail
       results.append(g)
     if canary is not None:
